@@ -86,7 +86,7 @@ CHECKS = {
         text='Per nside: every image point hashes to a cell number in range with offsets in [0, 1] whose diamond (centre +- 1/nside) contains the point; the centre of every cell hashes back with offsets (0.5, 0.5); '
              'sph_coo inverts hash_with_dxdy; consecutive centres are ordered (non-increasing latitude, increasing longitude); out-of-range numbers / latitudes panic.',
         design_ref='DESIGN.md section 5 C11',
-        note='Plane cut as in C03. nside values listed in the evidence (quick: 1, 2, 3, 5).',
+        note='Plane cut (proj -> arbitrary image point). Quick: every image point at nside 1, 2 (polar base-cell borders included, and separately restricted to them), centres at nside 1, 2, 3, 5, order at nside 1, 2, 3; thorough adds points at nside 3, 5 split by base-cell column and centres / order at more nside values.',
     ),
     'C14': dict(
         text='Per (depth, delta_depth), for every cell: internal_edge is the closed walk S->E->N->W of the border descendants, the sorted variant is the same set increasing, corner/side helpers match; '
@@ -99,10 +99,10 @@ CHECKS = {
         text='pack preserves the cell->state map, well-formedness and leaves no four full siblings for every valid sequence of bounded length; to_lower_depth keeps a coarse cell iff something overlapped it and marks '
              'it full only if covered by a full cell; the fixed-depth builder returns exactly the pushed set with the flag for every push order / duplicates / buffer capacity of bounded size, None iff nothing pushed.',
         design_ref='DESIGN.md section 5 C15',
-        note='Bounds: <= 4 entries / pushes, depth <= 2, capacities 1..4 (evidence). In fixed-depth-builder harnesses the pack step of or is cut (decided by the pack harnesses).',
+        note='Bounds: <= 4 entries / pushes, depth <= 2, capacities 1..4 (evidence). In fixed-depth-builder harnesses the pack step of or is cut (decided by the pack harnesses); the merge step buff_to_bmoc is also decided alone on every strictly increasing buffer of 4 cells (the state after sort + dedup).',
     ),
     'C17': dict(
-        text='For every double position: proj is in [-8,8]x[-2,2] with the sign of lon, inside the HEALPix image facets, and equals the Calabretta-Roukema formulae within 2^-46 from the same libm values; '
+        text='For every double position: proj is in [-8,8]x[-2,2] with the sign of lon, inside the HEALPix image facets, and equals the Calabretta-Roukema expressions within 2^-46 from the same libm values (decided compositionally: the real pm1_offset_decompose against its specification, the real proj over any decomposition value allowed by it; the polar products for operands with <= 13 / 10 significant bits); '
              'unproj is in range with the right sign on the whole plane domain; base_cell_from_proj_coo returns a base cell whose closed diamond contains the point for every image point; out-of-range lat / y panic.',
         design_ref='DESIGN.md section 5 C17',
         note='The two 1e-14 round trips depend on the accuracy of the actual libm and are evaluated only by the native oracle on replay, not decided by the solver. Polar reference clause: cosines with <= 10 significant bits.',
